@@ -1,40 +1,40 @@
-(* Cache/CacheMem.v — model of internal/cache/mem.go (MemoryCache.Store / Get, cacheEntry, releaseEntry)
-   as a small-step transition system whose steps are the atomic actions of the Go code, and of the value
+(* Cache/CacheMem.v — model of internal/cache/cm_mem.go (MemoryCache.Store / Get, cacheEntry, releaseEntry)
+   as a small-cm_step transition system whose steps are the atomic actions of the Go code, and of the value
    encoding of app/router/cache.go (packCacheMsg / unpackCacheMsg).
 
-   * backend (otter) = finite map key -> (entry pointer, expiry); the environment may drop any binding at
-     any time (size eviction, expiry, explicit delete); a dropped or replaced entry is handed to the
+   * backend (otter) = finite map key -> (entry_cm pointer, expiry); the environment may drop any binding at
+     any time (size eviction, expiry, explicit delete); a dropped or replaced entry_cm is handed to the
      deletion listener (= releaseEntry) at any LATER time (otter calls it from its worker goroutine).
-   * entries are recycled through cacheEntryPool: releaseEntry(key, entry) clears the entry under its write
-     lock and puts it into the pool — unless the entry no longer carries that key (otter v1.2.0 reports an
-     expired-then-replaced node twice; [LNotify] lets the backend repeat or invent ANY notification); Store takes an entry from the pool (or a fresh one), fills it under the write
+   * entries are recycled through cacheEntryPool: releaseEntry(key, entry_cm) clears the entry_cm under its write
+     lock and puts it into the pool — unless the entry_cm no longer carries that key (otter v1.2.0 reports an
+     expired-then-replaced node twice; [LNotify] lets the backend repeat or invent ANY notification); Store takes an entry_cm from the pool (or a fresh one), fills it under the write
      lock and publishes it with backend.Set / SetIfAbsent.  A reader that obtained the pointer before the
-     eviction may therefore lock an entry that meanwhile belongs to another key.
+     eviction may therefore lock an entry_cm that meanwhile belongs to another key.
    * Get = backend lookup; TryRLock; (e.v == nil || e.k != k) -> miss; copy e.v; RUnlock.
    * sync.RWMutex: Lock needs no holder at all; TryRLock fails iff a writer holds or waits for the lock.
    * the backend clock (otter's unixtime, updated once per second) lags real time by less than 1 s; a
      binding set at clock c with ttl L expires at c + ceil_seconds(L); lookup finds it while clock < expiry.
 
-   Goroutines are unbounded in number (thread ids are allocated on call); every label is one atomic action,
-   so the states reachable by [run] are exactly those reachable under every interleaving.
+   Goroutines are unbounded in number (thread ids are allocated on call); every label_cm is one atomic action,
+   so the states reachable by [cm_run] are exactly those reachable under every interleaving.
    Model only (no proofs here): Cache/CacheMemProofs.v. *)
 From Mos Require Import Base.Prelude Codec.Name Codec.Msg.
 
-Definition upd {A} (f : nat -> A) (i : nat) (x : A) : nat -> A :=
+Definition cm_upd {A} (f : nat -> A) (i : nat) (x : A) : nat -> A :=
   fun j => if Nat.eqb j i then x else f j.
 
-Inductive owner := OwnT (t : nat) | OwnRel.     (* who holds the write lock: goroutine t (Store) / releaseEntry *)
+Inductive owner_cm := OwnT (t : nat) | OwnRel.     (* who holds the write lock: goroutine t (Store) / releaseEntry *)
 
-Record entry := mkEntry {
+Record entry_cm := mkEntry {
   e_k : list N;                 (* cacheEntry.k *)
   e_v : option (list N);        (* cacheEntry.v (nil after release) *)
-  e_w : option owner;           (* write lock holder *)
+  e_w : option owner_cm;           (* write lock holder *)
   e_r : list nat                (* goroutines holding a read lock *)
 }.
-Definition entry0 : entry := mkEntry [] None None [].
+Definition entry0 : entry_cm := mkEntry [] None None [].
 
 (* program counters of one goroutine *)
-Inductive pc :=
+Inductive pc_cm :=
 | Idle
 | SNew (k v : list N) (ttl : N) (nx : bool)             (* Store called; next: newCacheEntry() *)
 | SLock (k v : list N) (ttl : N) (nx : bool) (e : nat)  (* next: e.l.Lock() *)
@@ -48,33 +48,33 @@ Inductive pc :=
 | GUnlockMiss (k : list N) (e : nat)                    (* next: RUnlock; return nil *)
 | GUnlockHit (k : list N) (e : nat) (v : list N).       (* next: RUnlock; return v *)
 
-Inductive event :=
-| EvStore (k v : list N)        (* Store(k, v) was called *)
-| EvHit (k v : list N)          (* Get(k) returned v *)
-| EvMiss (k : list N).          (* Get(k) returned nil *)
+Inductive event_cm :=
+| CmStore (k v : list N)        (* Store(k, v) was called *)
+| CmHit (k v : list N)          (* Get(k) returned v *)
+| CmMiss (k : list N).          (* Get(k) returned nil *)
 
 Record binding := mkB { b_k : list N; b_e : nat; b_exp : N }.
 
-Record state := mkState {
+Record state_cm := mkState {
   backend : list binding;
-  ents : nat -> entry;
+  ents : nat -> entry_cm;
   nent : nat;                   (* entries allocated so far (fresh ids are >= nent) *)
   free : list nat;              (* cacheEntryPool *)
   issued : list nat;            (* taken from the pool, Store's Lock not yet acquired (a waiting writer) *)
-  pend : list (list N * nat);   (* deletion notifications (key, entry) whose releaseEntry has not yet locked *)
-  relw : list (list N * nat);   (* releaseEntry(key, entry) holds the write lock *)
+  pend : list (list N * nat);   (* deletion notifications (key, entry_cm) whose releaseEntry has not yet locked *)
+  relw : list (list N * nat);   (* releaseEntry(key, entry_cm) holds the write lock *)
   relc : list nat;              (* cleared and unlocked, not yet put into the pool *)
-  thr : nat -> pc;
+  thr : nat -> pc_cm;
   nthr : nat;
   now : N;                      (* real time, ms *)
   bclk : N;                     (* backend clock, ms:  bclk <= now < bclk + 1000 *)
-  trace : list event            (* newest first *)
+  trace : list event_cm            (* newest first *)
 }.
 
-Definition init : state :=
+Definition cm_init : state_cm :=
   mkState [] (fun _ => entry0) 0 [] [] [] [] [] (fun _ => Idle) 0 0 0 [].
 
-Inductive label :=
+Inductive label_cm :=
 | LStore (k v : list N) (ttl : N) (nx : bool)   (* a new goroutine calls Store *)
 | LGet (k : list N)                             (* a new goroutine calls Get *)
 | LStep (t : nat) (choice : option nat)         (* goroutine t performs its next atomic action *)
@@ -87,38 +87,38 @@ Inductive label :=
 | LSync (c : N).                                (* the backend clock is refreshed *)
 
 (* ---- field updates ---- *)
-Definition with_thr (s : state) (t : nat) (p : pc) : state :=
+Definition with_thr (s : state_cm) (t : nat) (p : pc_cm) : state_cm :=
   mkState (backend s) (ents s) (nent s) (free s) (issued s) (pend s) (relw s) (relc s)
-          (upd (thr s) t p) (nthr s) (now s) (bclk s) (trace s).
-Definition with_ent (s : state) (e : nat) (x : entry) : state :=
-  mkState (backend s) (upd (ents s) e x) (nent s) (free s) (issued s) (pend s) (relw s) (relc s)
+          (cm_upd (thr s) t p) (nthr s) (now s) (bclk s) (trace s).
+Definition with_ent (s : state_cm) (e : nat) (x : entry_cm) : state_cm :=
+  mkState (backend s) (cm_upd (ents s) e x) (nent s) (free s) (issued s) (pend s) (relw s) (relc s)
           (thr s) (nthr s) (now s) (bclk s) (trace s).
-Definition with_ev (s : state) (ev : event) : state :=
+Definition with_ev (s : state_cm) (ev : event_cm) : state_cm :=
   mkState (backend s) (ents s) (nent s) (free s) (issued s) (pend s) (relw s) (relc s)
           (thr s) (nthr s) (now s) (bclk s) (ev :: trace s).
-Definition with_backend (s : state) (b : list binding) (pd : list (list N * nat)) : state :=
+Definition with_backend (s : state_cm) (b : list binding) (pd : list (list N * nat)) : state_cm :=
   mkState b (ents s) (nent s) (free s) (issued s) pd (relw s) (relc s)
           (thr s) (nthr s) (now s) (bclk s) (trace s).
-Definition with_pool (s : state) (n : nat) (fr iss : list nat) : state :=
+Definition with_pool (s : state_cm) (n : nat) (fr iss : list nat) : state_cm :=
   mkState (backend s) (ents s) n fr iss (pend s) (relw s) (relc s)
           (thr s) (nthr s) (now s) (bclk s) (trace s).
-Definition with_rel (s : state) (fr : list nat) (pd rw : list (list N * nat)) (rc : list nat) : state :=
+Definition with_rel (s : state_cm) (fr : list nat) (pd rw : list (list N * nat)) (rc : list nat) : state_cm :=
   mkState (backend s) (ents s) (nent s) fr (issued s) pd rw rc
           (thr s) (nthr s) (now s) (bclk s) (trace s).
-Definition with_time (s : state) (n c : N) : state :=
+Definition with_time (s : state_cm) (n c : N) : state_cm :=
   mkState (backend s) (ents s) (nent s) (free s) (issued s) (pend s) (relw s) (relc s)
           (thr s) (nthr s) n c (trace s).
-Definition spawn (s : state) (p : pc) : state :=
+Definition spawn (s : state_cm) (p : pc_cm) : state_cm :=
   mkState (backend s) (ents s) (nent s) (free s) (issued s) (pend s) (relw s) (relc s)
-          (upd (thr s) (nthr s) p) (S (nthr s)) (now s) (bclk s) (trace s).
+          (cm_upd (thr s) (nthr s) p) (S (nthr s)) (now s) (bclk s) (trace s).
 
 Definition rem (e : nat) (l : list nat) : list nat := remove Nat.eq_dec e l.
-Definition mem (e : nat) (l : list nat) : bool := existsb (Nat.eqb e) l.
+Definition cm_mem (e : nat) (l : list nat) : bool := existsb (Nat.eqb e) l.
 Definition same2 (k : list N) (e : nat) (p : list N * nat) : bool := list_eqb k (fst p) && Nat.eqb e (snd p).
 Definition mem2 (k : list N) (e : nat) (l : list (list N * nat)) : bool := existsb (same2 k e) l.
 Definition rem2 (k : list N) (e : nat) (l : list (list N * nat)) : list (list N * nat) :=
   filter (fun p => negb (same2 k e p)) l.
-(* every pair about entry e (the write lock has one holder, so there is at most one) *)
+(* every pair about entry_cm e (the write lock has one holder, so there is at most one) *)
 Definition rem_e (e : nat) (l : list (list N * nat)) : list (list N * nat) :=
   filter (fun p => negb (Nat.eqb e (snd p))) l.
 Fixpoint drop_nth {A} (i : nat) (l : list A) : list A :=
@@ -141,11 +141,11 @@ Definition same (k : list N) (b : list binding) : list binding :=
 (* otter: expiration = clock + ceil(ttl / 1 s) *)
 Definition ceil_s (ttl : N) : N := ((ttl + 999) / 1000 * 1000)%N.
 
-Definition unlocked (x : entry) : bool :=
+Definition unlocked (x : entry_cm) : bool :=
   match e_w x, e_r x with None, [] => true | _, _ => false end.
 
 (* one atomic action of goroutine t *)
-Definition step_thread (s : state) (t : nat) (choice : option nat) : option state :=
+Definition step_thread (s : state_cm) (t : nat) (choice : option nat) : option state_cm :=
   match thr s t with
   | Idle => None
   | SNew k v ttl nx =>
@@ -174,7 +174,7 @@ Definition step_thread (s : state) (t : nat) (choice : option nat) : option stat
     let nb := mkB k e (bclk s + ceil_s ttl) in
     match find_b k (backend s) with
     | Some _ =>
-      if nx then Some (with_thr s t Idle)                 (* SetIfAbsent: the new entry is simply dropped *)
+      if nx then Some (with_thr s t Idle)                 (* SetIfAbsent: the new entry_cm is simply dropped *)
       else Some (with_thr (with_backend s (nb :: others k (backend s))
                                         (map (fun b => (b_k b, b_e b)) (same k (backend s)) ++ pend s)) t Idle)
     | None => Some (with_thr (with_backend s (nb :: backend s) (pend s)) t Idle)
@@ -182,8 +182,8 @@ Definition step_thread (s : state) (t : nat) (choice : option nat) : option stat
   | GLook k =>
     match find_b k (backend s) with
     | Some b => if (bclk s <? b_exp b)%N then Some (with_thr s t (GTry k (b_e b)))
-                else Some (with_ev (with_thr s t Idle) (EvMiss k))
-    | None => Some (with_ev (with_thr s t Idle) (EvMiss k))
+                else Some (with_ev (with_thr s t Idle) (CmMiss k))
+    | None => Some (with_ev (with_thr s t Idle) (CmMiss k))
     end
   | GTry k e =>
     let x := ents s e in
@@ -191,11 +191,11 @@ Definition step_thread (s : state) (t : nat) (choice : option nat) : option stat
     | None =>
       match e_w x with
       | None => Some (with_thr (with_ent s e (mkEntry (e_k x) (e_v x) None (t :: e_r x))) t (GCheck k e))
-      | Some _ => Some (with_ev (with_thr s t Idle) (EvMiss k))      (* a writer holds the lock *)
+      | Some _ => Some (with_ev (with_thr s t Idle) (CmMiss k))      (* a writer holds the lock *)
       end
     | Some _ =>                                                       (* a writer is waiting for the lock *)
-      if mem e (map snd (pend s)) || mem e (issued s)
-      then Some (with_ev (with_thr s t Idle) (EvMiss k)) else None
+      if cm_mem e (map snd (pend s)) || cm_mem e (issued s)
+      then Some (with_ev (with_thr s t Idle) (CmMiss k)) else None
     end
   | GCheck k e =>
     let x := ents s e in
@@ -211,15 +211,15 @@ Definition step_thread (s : state) (t : nat) (choice : option nat) : option stat
     end
   | GUnlockMiss k e =>
     let x := ents s e in
-    Some (with_ev (with_thr (with_ent s e (mkEntry (e_k x) (e_v x) (e_w x) (rem t (e_r x)))) t Idle) (EvMiss k))
+    Some (with_ev (with_thr (with_ent s e (mkEntry (e_k x) (e_v x) (e_w x) (rem t (e_r x)))) t Idle) (CmMiss k))
   | GUnlockHit k e v =>
     let x := ents s e in
-    Some (with_ev (with_thr (with_ent s e (mkEntry (e_k x) (e_v x) (e_w x) (rem t (e_r x)))) t Idle) (EvHit k v))
+    Some (with_ev (with_thr (with_ent s e (mkEntry (e_k x) (e_v x) (e_w x) (rem t (e_r x)))) t Idle) (CmHit k v))
   end.
 
-Definition step (s : state) (l : label) : option state :=
+Definition cm_step (s : state_cm) (l : label_cm) : option state_cm :=
   match l with
-  | LStore k v ttl nx => Some (with_ev (spawn s (SNew k v ttl nx)) (EvStore k v))
+  | LStore k v ttl nx => Some (with_ev (spawn s (SNew k v ttl nx)) (CmStore k v))
   | LGet k => Some (spawn s (GLook k))
   | LStep t c => step_thread s t c
   | LEvict i =>
@@ -245,46 +245,46 @@ Definition step (s : state) (l : label) : option state :=
                              (free s) (pend s) (rem_e e (relw s)) (relc s))
     else None
   | LRelPut e =>
-    if mem e (relc s)
+    if cm_mem e (relc s)
     then Some (with_rel s (e :: free s) (pend s) (relw s) (rem e (relc s)))
     else None
   | LTick d => if (now s + d <? bclk s + 1000)%N then Some (with_time s (now s + d) (bclk s)) else None
   | LSync c => if (bclk s <=? c)%N && (c <=? now s)%N then Some (with_time s (now s) c) else None
   end.
 
-Fixpoint run (ls : list label) (s : state) : option state :=
+Fixpoint cm_run (ls : list label_cm) (s : state_cm) : option state_cm :=
   match ls with
   | [] => Some s
-  | l :: r => match step s l with Some s' => run r s' | None => None end
+  | l :: r => match cm_step s l with Some s' => cm_run r s' | None => None end
   end.
 
-(* ---------- quiescent (big-step) operations: particular schedules of the small-step system ---------- *)
+(* ---------- quiescent (big-cm_step) operations: particular schedules of the small-cm_step system ---------- *)
 
-(* let goroutine t run alone until it returns *)
-Fixpoint drive (fuel : nat) (t : nat) (s : state) : option state :=
+(* let goroutine t cm_run alone until it returns *)
+Fixpoint drive (fuel : nat) (t : nat) (s : state_cm) : option state_cm :=
   match thr s t with
   | Idle => Some s
   | _ => match fuel with
          | O => None
-         | S f => match step s (LStep t None) with Some s' => drive f t s' | None => None end
+         | S f => match cm_step s (LStep t None) with Some s' => drive f t s' | None => None end
          end
   end.
 
-Definition pool_choice (s : state) : option nat := match free s with [] => None | _ => Some 0 end.
+Definition pool_choice (s : state_cm) : option nat := match free s with [] => None | _ => Some 0 end.
 
-Definition big_store (k v : list N) (ttl : N) (nx : bool) (s : state) : option state :=
+Definition big_store (k v : list N) (ttl : N) (nx : bool) (s : state_cm) : option state_cm :=
   let t := nthr s in
-  match step s (LStore k v ttl nx) with
-  | Some s1 => match step s1 (LStep t (pool_choice s1)) with
+  match cm_step s (LStore k v ttl nx) with
+  | Some s1 => match cm_step s1 (LStep t (pool_choice s1)) with
                | Some s2 => drive 8 t s2
                | None => None
                end
   | None => None
   end.
 
-Definition big_get (k : list N) (s : state) : option state :=
+Definition big_get (k : list N) (s : state_cm) : option state_cm :=
   let t := nthr s in
-  match step s (LGet k) with Some s1 => drive 8 t s1 | None => None end.
+  match cm_step s (LGet k) with Some s1 => drive 8 t s1 | None => None end.
 
 Fixpoint index_b (k : list N) (b : list binding) : option (nat * nat) :=
   match b with
@@ -293,51 +293,51 @@ Fixpoint index_b (k : list N) (b : list binding) : option (nat * nat) :=
               else match index_b k r with Some (i, e) => Some (S i, e) | None => None end
   end.
 
-(* drop the binding of k and let the deletion listener run to completion (no-op when k is not bound) *)
-Definition big_evict (k : list N) (s : state) : option state :=
+(* drop the binding of k and let the deletion listener cm_run to completion (no-op when k is not bound) *)
+Definition big_evict (k : list N) (s : state_cm) : option state_cm :=
   match index_b k (backend s) with
   | None => Some s
-  | Some (i, e) => run [LEvict i; LRelLock k e; LRelClear k e; LRelPut e] s
+  | Some (i, e) => cm_run [LEvict i; LRelLock k e; LRelClear k e; LRelPut e] s
   end.
 
 (* real time passes; the clock is refreshed as late as its contract allows (worst case for hits is the
    opposite: an early refresh; both are schedules, the theorem covers all) *)
-Definition big_sleep (d : N) (s : state) : option state :=
-  match step s (LSync (now s)) with
-  | Some s1 => if (d <? 1000)%N then step s1 (LTick d) else None
+Definition big_sleep (d : N) (s : state_cm) : option state_cm :=
+  match cm_step s (LSync (now s)) with
+  | Some s1 => if (d <? 1000)%N then cm_step s1 (LTick d) else None
   | None => None
   end.
 
 (* a reader that looked the pointer up, then lost the race against eviction.  [phase]:
-     0 = the entry is being released (write lock held) when the reader tries to lock it
-     1 = the entry has been cleared (v == nil), not yet reused
-     2 = the entry has been recycled for key k2 / value v2 *)
-Definition big_race (phase : nat) (k k2 v2 : list N) (s : state) : option state :=
+     0 = the entry_cm is being released (write lock held) when the reader tries to lock it
+     1 = the entry_cm has been cleared (v == nil), not yet reused
+     2 = the entry_cm has been recycled for key k2 / value v2 *)
+Definition big_race (phase : nat) (k k2 v2 : list N) (s : state_cm) : option state_cm :=
   let t := nthr s in
-  match step s (LGet k) with
+  match cm_step s (LGet k) with
   | None => None
   | Some s1 =>
-    match step s1 (LStep t None) with
+    match cm_step s1 (LStep t None) with
     | None => None
     | Some s2 =>
       match thr s2 t, index_b k (backend s2) with
       | GTry _ e, Some (i, _) =>
         match phase with
-        | 0 => match run [LEvict i; LRelLock k e] s2 with
+        | 0 => match cm_run [LEvict i; LRelLock k e] s2 with
                | Some s3 => match drive 8 t s3 with
-                            | Some s4 => run [LRelClear k e; LRelPut e] s4
+                            | Some s4 => cm_run [LRelClear k e; LRelPut e] s4
                             | None => None
                             end
                | None => None
                end
-        | 1 => match run [LEvict i; LRelLock k e; LRelClear k e] s2 with
+        | 1 => match cm_run [LEvict i; LRelLock k e; LRelClear k e] s2 with
                | Some s3 => match drive 8 t s3 with
-                            | Some s4 => run [LRelPut e] s4
+                            | Some s4 => cm_run [LRelPut e] s4
                             | None => None
                             end
                | None => None
                end
-        | _ => match run [LEvict i; LRelLock k e; LRelClear k e; LRelPut e] s2 with
+        | _ => match cm_run [LEvict i; LRelLock k e; LRelClear k e; LRelPut e] s2 with
                | Some s3 => match big_store k2 v2 3600000 false s3 with
                             | Some s4 => drive 8 t s4
                             | None => None
@@ -357,7 +357,7 @@ Inductive op :=
 | ORace (phase : nat) (k k2 v2 : list N)
 | OSleep (d : N).
 
-Definition big_op (o : op) (s : state) : option state :=
+Definition big_op (o : op) (s : state_cm) : option state_cm :=
   match o with
   | OStore k v ttl nx => big_store k v ttl nx s
   | OGet k => big_get k s
@@ -366,15 +366,15 @@ Definition big_op (o : op) (s : state) : option state :=
   | OSleep d => big_sleep d s
   end.
 
-Fixpoint big_run (os : list op) (s : state) : option state :=
+Fixpoint big_run (os : list op) (s : state_cm) : option state_cm :=
   match os with
   | [] => Some s
   | o :: r => match big_op o s with Some s' => big_run r s' | None => None end
   end.
 
 (* what the callers of Get saw, oldest first *)
-Definition is_ret (e : event) : bool := match e with EvStore _ _ => false | _ => true end.
-Definition returns (s : state) : list event := rev (filter is_ret (trace s)).
+Definition is_ret (e : event_cm) : bool := match e with CmStore _ _ => false | _ => true end.
+Definition returns (s : state_cm) : list event_cm := rev (filter is_ret (trace s)).
 
 (* ---------- value encoding: packCacheMsg / unpackCacheMsg ---------- *)
 Section Value.
